@@ -126,4 +126,9 @@ pub enum LetValue { Closure { params: Vec<ClosureParam>, body: Box<MonoExpr>, ty
 #[verifier::external_body] pub fn let_value_of(value: Box<MonoExpr>) -> (r: LetValue) { unimplemented!() }
 #[verifier::external_body] pub fn unbox_ty(b: Box<Ty>) -> (r: Ty) ensures r == *b { unimplemented!() }          // `*ret_ty` on an owned Box
 #[verifier::external_body] pub fn ty_ne(a: &Ty, b: &Ty) -> (r: bool) ensures r == (*a != *b) { unimplemented!() }           // derived PartialEq
+// C08 ("every flow of a function value (.. array ..)"): an item of an array literal that holds a closure environment has exactly the array's
+// element type — otherwise the element comes out again at the pre-lifting function type and is "called" as a Go func
+pub open spec fn array_items_typed(state: &State, items: Seq<LiftExpr>, at: Ty) -> bool {
+    forall|i: int| 0 <= i < items.len() && state.contains_closure(lift_ty(#[trigger] items[i])) ==> (at matches Ty::TArray { elem, .. } && *elem == lift_ty(items[i]))
+}
 
